@@ -295,6 +295,36 @@ def wide_task(task):
     return {"n": 1, "fails": fails, "drift": []}
 
 
+def invalid_task(task):
+    """Configurations Made.tla excludes (residual blocks with random masks: the skip connection needs degrees that
+    never decrease): the real constructor refuses them - or, if it builds a network, that network must be
+    autoregressive all the same."""
+    import torch
+
+    torch.set_num_threads(1)
+    copy, seed = task
+    out = {"n": 0, "fails": [], "drift": []}
+    for D, H, B in ((3, 5, 1), (4, 6, 2), (5, 8, 2)):
+        cfg = {"D": D, "H": H, "B": B, "m": 3 if copy == "nn.nde.MoG" else 1, "res": True, "rnd": True}
+        torch.manual_seed(seed * 31 + D)
+        try:
+            net = build_net(copy, cfg)
+        except Exception:  # noqa  (refused: what the specification says)
+            continue
+        if net is None:
+            continue
+        out["n"] += 1
+        m = cfg["m"]
+        deps = ones_pattern(net, D)
+        bad = [(o, [j + 1 for j, v in enumerate(row) if v and j >= o // m]) for o, row in enumerate(deps)]
+        bad = [b for b in bad if b[1]]
+        if bad:
+            out["fails"].append({"copy": copy, "cfg": cfg, "draws": None, "ctx": None, "seed": seed, "clause": "excluded_config_builds_and_leaks", "invalid": True, "detail": "residual blocks with random masks are accepted by the constructor and output unit %d (feature %d) depends on inputs %s" % (bad[0][0], bad[0][0] // m + 1, bad[0][1])})
+        else:
+            out["drift"].append("%s accepts residual blocks with random masks (%s); this network happens to be autoregressive" % (copy, cfg))
+    return out
+
+
 def use_task(task):
     """Walk the MadeUse graph on real networks; measure the dependency pattern at every Forward."""
     import torch
@@ -303,9 +333,14 @@ def use_task(task):
     cfgs, walks, seed = task
     out = {"n": 0, "fails": []}
     for ci, cfg in enumerate(cfgs):
-        for copy in ("transforms.made", "nn.nde.made"):
+        for copy, tied in [(c_, t_) for c_ in ("transforms.made", "nn.nde.made") for t_ in (False, True)]:
+            if tied and (cfg["res"] or cfg["B"] < 2):
+                continue
             torch.manual_seed(seed + ci)
             net = build_net(copy, cfg, ctx=None, activation="identity")
+            if tied:
+                # weight tying: two hidden layers share one Parameter (each keeps its own mask and degrees)
+                net.blocks[1].linear.weight = net.blocks[0].linear.weight
             D, m = cfg["D"], cfg["m"]
             g = torch.Generator().manual_seed(seed + 17 * ci)
             wsets = {}
@@ -353,7 +388,7 @@ def use_task(task):
                         bad = [(o, [j + 1 for j in range(D) if j >= o // m and float(J[o, j]) != 0.0]) for o in range(J.shape[0])]
                         bad = [b for b in bad if b[1]]
                         if bad:
-                            out["fails"].append({"copy": copy, "cfg": cfg, "draws": None, "ctx": None, "seed": seed + ci, "clause": "weights_after_history", "history": list(hist), "detail": "after %s output unit %d (feature %d) depends on inputs %s" % (hist[-4:], bad[0][0], bad[0][0] // m + 1, bad[0][1])})
+                            out["fails"].append({"copy": copy, "cfg": cfg, "draws": None, "ctx": None, "seed": seed + ci, "clause": "weights_after_history", "history": list(hist), "tied": tied, "detail": ("two hidden layers share their weight Parameter; " if tied else "") + "after %s output unit %d (feature %d) depends on inputs %s" % (hist[-4:], bad[0][0], bad[0][0] // m + 1, bad[0][1])})
                             break
     return out
 
@@ -416,6 +451,11 @@ def main(run, replay=None):
 
         for f in assembly.replay(run, replay["case"]):
             run.violation({"kind": "assembly", "clause": f["clause"]}, "replayed: " + f["detail"], replay["case"])
+        return
+    if replay and replay["case"].get("invalid"):
+        c = replay["case"]
+        for f in invalid_task((c["copy"], c["seed"]))["fails"]:
+            run.violation({"copy": f["copy"], "clause": f["clause"]}, "replayed: " + f["detail"], c)
         return
     if replay and replay["case"].get("wide"):
         c = replay["case"]
@@ -541,6 +581,11 @@ def main(run, replay=None):
         for d in out["drift"]:
             run.note_drift(d)
     run.extra["wide_networks"] = len(wide)
+    for out in pmap(invalid_task, [(copy, run.seed + k) for copy in ("transforms.made", "nn.nde.made", "nn.nde.MoG") for k in range(6)], nproc):
+        run.evaluations += out["n"]
+        fails += out["fails"]
+        for d in out["drift"][:2]:
+            run.note_drift(d)
     # (T) on networks nobody here configured: every MADE the repository's own test-suite constructs
     from vcore import suite
 
